@@ -84,7 +84,9 @@ def snapshot(g, prefix="snap", deep=True):
         with guard(f"{P}/views/neighbors"):
             nbrs = {a: set(s) for a, s in g.neighbors.items()}
         for a, s in nbrs.items():
-            if a not in aset and s:
+            if a not in aset:
+                # also an empty entry: the view then lists something that
+                # is not an atom
                 raise Violation(f"{P}/incoherent/neighbors-of-absent-atom",
                                 f"{a!r}: {s}")
         for a in atoms:
